@@ -529,10 +529,12 @@ func (r *router) createOutgoingRequests(urlMatch *urlMatch, req *http.Request, o
 	}
 	var copyRequest *http.Request
 	if urlMatch.copyURL != nil {
-		copyRequest, err = r.createProxyRequest(req, urlMatch.copyRule.internal, urlMatch.copyRule.hostHeader, urlMatch.copyURL)
-		if err != nil {
-			logctx.WithError(err).Error("Error creating copyRequest")
-			return nil, err
+		var copyErr error
+		copyRequest, copyErr = r.createProxyRequest(req, urlMatch.copyRule.internal, urlMatch.copyRule.hostHeader, urlMatch.copyURL)
+		if copyErr != nil {
+			// Copying traffic must not affect the client: like a failed copy request, this is only logged
+			logctx.WithError(copyErr).Error("Error creating copyRequest, not copying this request")
+			copyRequest = nil
 		}
 	}
 	return &createRequestsResult{
